@@ -446,6 +446,12 @@ func (t *tr) stmts(list []ast.Stmt, k cont) string {
 			}
 		}
 		t.call(c, 0)
+	case *ast.TypeSwitchStmt:
+		// translated one case at a time (translateFuncMode): only the clause selected for this definition
+		if t.caseClause == nil || x != soleTypeSwitch(t.f.decl) {
+			t.fail(s, "type switch in an unsupported position")
+		}
+		return t.stmts(append(append([]ast.Stmt{}, t.caseClause.Body...), rest...), k)
 	default:
 		t.fail(s, "unsupported statement %T", s)
 	}
@@ -1034,4 +1040,33 @@ func (t *tr) retTuple(vals []string) string {
 		return all[0]
 	}
 	return "(" + strings.Join(all, ", ") + ")"
+}
+
+// soleTypeSwitch: the function body is exactly `switch [v :=] p.(type) { … }` on an interface-typed parameter p
+func soleTypeSwitch(fd *ast.FuncDecl) *ast.TypeSwitchStmt {
+	if fd == nil || fd.Body == nil || len(fd.Body.List) != 1 {
+		return nil
+	}
+	ts, ok := fd.Body.List[0].(*ast.TypeSwitchStmt)
+	if !ok || ts.Init != nil {
+		return nil
+	}
+	return ts
+}
+
+// the expression x in `switch [v :=] x.(type)`
+func typeSwitchSubject(ts *ast.TypeSwitchStmt) ast.Expr {
+	var e ast.Expr
+	switch a := ts.Assign.(type) {
+	case *ast.AssignStmt:
+		if len(a.Rhs) == 1 {
+			e = a.Rhs[0]
+		}
+	case *ast.ExprStmt:
+		e = a.X
+	}
+	if ta, ok := e.(*ast.TypeAssertExpr); ok && ta.Type == nil {
+		return ta.X
+	}
+	return nil
 }
